@@ -1,7 +1,10 @@
 """ H1 commander level: the REAL Starter / Stopper / strategies / Context / ProcessStatus of one instance (harness/simenv.py)
-    driven by generated application configurations, user requests, ticks, periodic checks and process events; every emitted
-    start / stop request and forced state is recorded and compared with the Lean commander model (`drv_cmd`).
-    Used by C03 C04 C09 C10 C14. """
+    driven by generated application configurations (distribution rules and application-level identifiers rules included), user
+    requests (start / stop / restart of one application, start of one process, automatic start of all applications, stop of all
+    applications), ticks,
+    periodic checks, process events and cluster events; every emitted start / stop request and forced state - and the class of any
+    exception an operation raises - is recorded and compared with the Lean commander model (`drv_cmd`).
+    Used by C03 C04 C09 C10 C14 (and C19 through harness/c19.py). """
 import sys, random, json
 from simenv import *
 from supvisors.internal_com.mapper import LocalNetwork
@@ -20,9 +23,40 @@ def event(app, name, ident, state, expected, t):
     return {'identifier': ident, 'nick_identifier': ident, 'group': app, 'name': name, 'state': state, 'now': int(t),
             'now_monotonic': float(t), 'pid': 0, 'expected': expected, 'spawnerr': '', 'extra_args': '', 'disabled': False}
 
+GEN = int(os.environ.get('VERIF_GEN', '3'))
+            # generation of the case generator: 0 = per-application requests only, every application ALL_INSTANCES (what the corpus
+            # files without a "gen" key were recorded with); 1 = + whole-cluster requests (startapps / stopapps);
+            # 2 = + distribution rules (SINGLE_INSTANCE / SINGLE_NODE) and application-level identifiers rules;
+            # 3 = + start of a single process (Starter.start_process: add_commands / on_command_added)
+
+
+class CaseEnd(Exception):
+    """ the implementation raised inside an operation: the operation is recorded with the exception class, the case ends """
+
+
+def case_key(x):
+    """ a case is named by its seed, or by (seed, generator generation) """
+    return (x, GEN) if isinstance(x, int) else (int(x[0]), int(x[1]))
+
+
+def corpus_cases(prop):
+    d = os.path.join(os.path.dirname(os.path.dirname(os.path.abspath(__file__))), 'corpus', prop); out = []
+    if os.path.isdir(d):
+        for f in sorted(os.listdir(d)):
+            if f.endswith('.json'):
+                c = json.load(open(os.path.join(d, f))); out.append((c['case_seed'], c.get('gen', 0)))
+    return out
+
+
 class Case:
-    def __init__(self, seed):
+    def __init__(self, seed, gen=None):
+        gen = self.gen = GEN if gen is None else gen
         rnd = self.rnd = random.Random(seed)
+        # the choices of the later generations are drawn from a second stream: a seed means the same base case in every generation
+        rnd2 = self.rnd2 = random.Random((seed * 2654435761 + 97) & 0xffffffff)
+        self.exc = None; self.auto = []
+        # a cluster in which nothing was ever started (the situation of the automatic start of all applications)
+        fresh = gen >= 1 and rnd2.random() < 0.35
         n = self.n = rnd.randint(1, 4)
         T[0] = 100 * UNIT
         opts = {'synchro_timeout': '15', 'inactivity_ticks': '2', 'core_identifiers': '', 'auto_fence': 'false', 'starting_strategy': 'CONFIG',
@@ -52,7 +86,7 @@ class Case:
             def __init__(jself, *a, **k):
                 super().__init__(*a, **k); jself._verif_id = case.job_count; case.job_count += 1
             def process_job(jself, command):
-                case.cur.append((jself._verif_id, command.strategy.value))
+                case.cur.append((jself._verif_id, command.strategy.value, 's' if command.ignore_wait_exit else ''))
                 queued = False
                 try:
                     queued = super().process_job(command)
@@ -80,8 +114,8 @@ class Case:
                     if queued and case.s.stopper.current_jobs.get(jself.application_name) is not jself: case.orphaned = True
         s.stopper.job_class = TaggedStopJobs
         def rec_start(ident, namespec, extra):
-            k, st = self.cur[-1] if self.cur else (-1, -1)
-            self.emitted.append(f"start:{self.pidx[namespec]}>{self.ids.index(ident)}@{k}/{st}")
+            k, st, sg = self.cur[-1] if self.cur else (-1, -1, '')
+            self.emitted.append(f"start:{self.pidx[namespec]}>{self.ids.index(ident)}@{k}/{st}{sg}")
         s.rpc_handler.send_start_process = rec_start
         orig_force = s.listener.force_process_state
         def force(process, identifier, event_time, forced_state, reason):
@@ -91,6 +125,14 @@ class Case:
         s.listener.force_process_state = force
         s.rpc_handler.send_process_state_event = lambda payload: None
         s.rpc_handler.send_stop_process = lambda ident, namespec: self.emitted.append(f"stop:{self.pidx[namespec]}>{self.ids.index(ident)}")
+        # which application starts are stored by the automatic start of all applications (no strategy given)
+        orig_store = s.starter.store_application
+        def store(application, strategy=None):
+            before = self.job_count
+            r = orig_store(application, strategy)
+            if strategy is None and self.job_count > before: self.auto.append((before, self.aidx[application.application_name]))
+            return r
+        s.starter.store_application = store
         # applications & processes
         self.lines = [f"world {n} 0 {','.join(map(str, self.node))} {','.join(str(int(x)) for x in self.running)}"]; self.obs = ['ok']
         napps = rnd.randint(1, 3)
@@ -101,7 +143,15 @@ class Case:
             rules = ApplicationRules(s); rules.managed = True
             rules.start_sequence = rnd.randint(0, 2); rules.starting_strategy = rnd.choice(list(StartingStrategies))
             rules.stop_sequence = rnd.randint(0, 2)
-            self.lines.append(f"app {rules.start_sequence} {rules.starting_strategy.value} {rules.stop_sequence}"); self.obs.append('ok')
+            dist = 0; aid = None
+            if gen >= 2:
+                r2 = rnd2.random(); dist = 0 if r2 < 0.4 else (1 if r2 < 0.7 else 2)
+                aid = None if rnd2.random() < 0.55 else rnd2.sample(range(n), rnd2.randint(1, n))
+            rules.distribution = DistributionRules(dist)
+            rules.identifiers = ['*'] if aid is None else [self.ids[i] for i in aid]
+            self.adist = getattr(self, 'adist', []); self.adist.append(dist)
+            self.lines.append(f"app {rules.start_sequence} {rules.starting_strategy.value} {rules.stop_sequence} {dist} "
+                              + ('*' if aid is None else ','.join(map(str, aid)))); self.obs.append('ok')
             self.arules = getattr(self, 'arules', {}); self.arules[aname] = rules
             for k in range(rnd.randint(1, 4)):
                 pname = f'p{k}'; ns = f'{aname}:{pname}'
@@ -124,6 +174,7 @@ class Case:
                 if i in cfg['known']:
                     st = rnd.choice([0, 0, 0, 0, 100, 200, 20]) if self.running[i] else 0
                     if st == 20 and 20 in cfg['init'].values(): st = 0
+                    if fresh: st = 0
                     cfg['init'][i] = st
                     infos.append(full_info(cfg['aname'], cfg['name'], st, T[0] / UNIT, cfg['startsecs'], i in cfg['disabled'], cfg['stopwait']))
             status = s.context.instances[ident]
@@ -163,13 +214,27 @@ class Case:
 
     def observe(self):
         e = self.emitted; self.emitted = []
+        if self.exc: return f"out=[{','.join(e)}] exc={self.exc[0]}"
         return (f"out=[{','.join(e)}] starting={'true' if self.s.starter.in_progress() else 'false'}"
                 f" stopping={'true' if self.s.stopper.in_progress() else 'false'}" + (' orphan=1' if self.orphaned else ''))
 
-    def record(self, op):
-        self.lines.append(f"op {T[0]} {op}"); self.obs.append(self.observe())
+    def record(self, op, extra=''):
+        self.lines.append(f"op {T[0]} {op}"); self.obs.append(self.observe() + ('' if self.exc else extra))
+        if self.exc: raise CaseEnd()
+
+    def impl(self, fn):
+        """ one implementation operation; an exception it raises is part of the observation (class) and ends the case """
+        try: fn()
+        except Hang: raise
+        except Exception as e:
+            self.exc = (type(e).__name__, traceback.format_exc())
 
     def run(self):
+        try: self._run()
+        except CaseEnd: pass
+        return self
+
+    def _run(self):
         rnd, s = self.rnd, self.s
         pending = []    # (time, i, p, state, expected)
         apps = list(self.aidx)
@@ -177,14 +242,36 @@ class Case:
         steps = rnd.randint(10, 60)
         to_start = apps[:]
         scripts = {}
+        # whole-cluster requests (generation >= 1): the automatic start of all applications (early, possibly again later) and the
+        # stop of all applications (restart / shutdown)
+        auto_first = self.gen >= 1 and self.rnd2.random() < 0.45
         for step in range(steps):
             if self.orphaned: break
             T[0] += rnd.randint(1, 3 * UNIT)
+            if self.gen >= 1:
+                r2 = self.rnd2.random()
+                if (auto_first and step == 0) or r2 < 0.02:
+                    self.auto = []
+                    self.impl(s.starter.start_applications)
+                    self.record("startapps", f" auto=[{','.join(f'{k}:{a}' for k, a in self.auto)}]")
+                    continue
+                if r2 < 0.05 and step > 3:
+                    self.impl(s.stopper.stop_applications); self.record("stopapps")
+                    continue
+                if self.gen >= 3 and r2 < 0.11:
+                    # the start of a single process, preferably of an application whose start is planned or in progress
+                    busy = [p for p, cfg in enumerate(self.pinfo) if cfg['aname'] in s.starter.get_application_job_names()]
+                    p = self.rnd2.choice(busy) if busy and self.rnd2.random() < 0.7 else self.rnd2.randrange(len(self.pinfo))
+                    cfg = self.pinfo[p]; strat = self.rnd2.choice(list(StartingStrategies))
+                    procx = s.context.get_process(f"{cfg['aname']}:{cfg['name']}")
+                    self.impl(lambda: s.starter.start_process(strat, procx))
+                    self.record(f"startproc {p} {strat.value}")
+                    continue
             r = rnd.random()
             if to_start and r < 0.35:
                 aname = to_start.pop()
                 strat = rnd.choice(list(StartingStrategies))
-                s.starter.start_application(strat, s.context.applications[aname])
+                self.impl(lambda: s.starter.start_application(strat, s.context.applications[aname]))
                 self.record(f"startapp {self.aidx[aname]} {strat.value}")
             elif r < 0.55:
                 i = rnd.randrange(self.n)
@@ -193,12 +280,13 @@ class Case:
             elif r < 0.62:
                 aname = rnd.choice(list(self.aidx))
                 if rnd.random() < 0.5:
-                    s.stopper.stop_application(s.context.applications[aname]); self.record(f"stopapp {self.aidx[aname]}")
+                    self.impl(lambda: s.stopper.stop_application(s.context.applications[aname])); self.record(f"stopapp {self.aidx[aname]}")
                 else:
                     strat = rnd.choice(list(StartingStrategies))
-                    s.stopper.restart_application(strat, s.context.applications[aname]); self.record(f"restartapp {self.aidx[aname]} {strat.value}")
+                    self.impl(lambda: s.stopper.restart_application(strat, s.context.applications[aname]))
+                    self.record(f"restartapp {self.aidx[aname]} {strat.value}")
             elif r < 0.72:
-                s.starter.check(); s.stopper.check(); self.record("check")
+                self.impl(lambda: (s.starter.check(), s.stopper.check())); self.record("check")
             elif r < 0.77 and self.n > 1:
                 self.cluster_op()
             else:
@@ -228,8 +316,7 @@ class Case:
         s = self.s; cfg = self.pinfo[p]; ident = self.ids[i]; ns = f"{cfg['aname']}:{cfg['name']}"
         ev = event(cfg['aname'], cfg['name'], ident, st, expected, T[0] / UNIT)
         ev['disabled'] = self.dis[(i, p)]
-        before = dict(s.context.get_process(ns).info_map[ident])
-        s.fsm.on_process_state_event(s.context.instances[ident], ev)
+        self.impl(lambda: s.fsm.on_process_state_event(s.context.instances[ident], ev))
         info = s.context.get_process(ns).info_map[ident]
         accepted = self.running[i] or self.checked[i]
         et, lt = (int(info['event_time'] * UNIT), int(info['local_mtime'] * UNIT)) if accepted else (T[0], T[0])
@@ -253,11 +340,9 @@ class Case:
             status._state = SupvisorsInstanceStates.FAILED
             lost, failed = s.context.invalidate_failed()
             # _MasterSlaveState._common_next
-            s.starter.on_instances_invalidation(lost, failed)
-            s.stopper.on_instances_invalidation(lost, failed)
+            self.impl(lambda: (s.starter.on_instances_invalidation(lost, failed), s.stopper.on_instances_invalidation(lost, failed)))
             self.running[i] = False; self.checked[i] = False
-            self.lines.append(f"op {T[0]} lose {i}")
-            self.obs.append(self.observe() + f" failed=[{','.join(map(str, sorted(self.pidx[x.namespec] for x in failed)))}]")
+            self.record(f"lose {i}", f" failed=[{','.join(map(str, sorted(self.pidx[x.namespec] for x in failed)))}]")
         elif r < 0.6:
             cands = [i for i in others if not self.running[i] and not self.checked[i]]
             if not cands: return
@@ -296,16 +381,16 @@ class Case:
             self.dis[(i, p)] = not self.dis[(i, p)]
             s.context.on_process_disability_event(s.context.instances[ident], {'group': cfg['aname'], 'name': cfg['name'], 'disabled': self.dis[(i, p)]})
             info = s.context.get_process(f"{cfg['aname']}:{cfg['name']}").info_map[ident]
-            self.lines.append(f"op {T[0]} disable {i} {p} {int(self.dis[(i, p)])}")
-            self.obs.append(self.observe() + f" dis={int(info['disabled'])}")
+            self.record(f"disable {i} {p} {int(self.dis[(i, p)])}", f" dis={int(info['disabled'])}")
 
 
 
 def run_cases(chk, seeds):
     """ returns list of dicts per case: seed, lines, obs, model, first diff, implementation exception """
     lines = []; obs = []; bounds = []; res = []
-    for seed in seeds:
-        c = Case(seed); exc = None
+    for key in seeds:
+        seed, gen = case_key(key)
+        c = Case(seed, gen); exc = None
         try:
             with watchdog(60): c.run()
         except Hang as e:
@@ -313,6 +398,7 @@ def run_cases(chk, seeds):
         except Exception as e:
             exc = (type(e).__name__, traceback.format_exc())
             c.emitted = []
+        exc = exc or c.exc
         bounds.append((seed, len(lines), len(lines) + len(c.lines), exc, c))
         lines += [f'{l} | {o}' for l, o in zip(c.lines, c.obs)]; obs += c.obs
     model = chk.driver('drv_cmd', lines)
@@ -324,7 +410,7 @@ def run_cases(chk, seeds):
                 diff = {'line': k - a, 'op': lines[k].split('|')[0].strip(), 'impl': obs[k], 'model': parts[0]}
             if len(parts) > 1 and parts[1] != 'J:ok':
                 for v in parts[1][2:].split(';'): verdicts.append((k - a, v, lines[k].split('|')[0].strip()))
-        res.append({'seed': seed, 'lines': [l.split('|')[0].strip() for l in lines[a:b]], 'obs': obs[a:b], 'diff': diff,
+        res.append({'seed': seed, 'gen': c.gen, 'lines': [l.split('|')[0].strip() for l in lines[a:b]], 'obs': obs[a:b], 'diff': diff,
                     'verdicts': verdicts, 'exc': exc, 'case': c})
     return res
 
@@ -359,7 +445,8 @@ def commander_check(chk, module, prefixes, quick_cases=1500, thorough_cases=3000
     n = quick_cases if chk.tier == 'quick' else thorough_cases
     rule_text, rule = RULES[prop]
     stats = {'evaluations': 0, 'lines': 0, 'nontrivial': set(), 'ops': {}, 'emitted': {'start': 0, 'stop': 0, 'force': 0},
-             'impl_exceptions': {}, 'orphan_cases': 0}
+             'impl_exceptions': {}, 'orphan_cases': 0, 'dist': {'ALL_INSTANCES': 0, 'SINGLE_INSTANCE': 0, 'SINGLE_NODE': 0},
+             'dist_starts': {'ALL_INSTANCES': 0, 'SINGLE_INSTANCE': 0, 'SINGLE_NODE': 0}}
     samples = []
 
     def batch(seeds):
@@ -372,10 +459,16 @@ def commander_check(chk, module, prefixes, quick_cases=1500, thorough_cases=3000
                 if l.startswith('op '): k = l.split()[2]; stats['ops'][k] = stats['ops'].get(k, 0) + 1
             if rule(outs): stats['nontrivial'].add(r['seed'])
             if r['case'].orphaned: stats['orphan_cases'] += 1
+            dn = ['ALL_INSTANCES', 'SINGLE_INSTANCE', 'SINGLE_NODE']
+            for d in r['case'].adist: stats['dist'][dn[d]] += 1
+            for o in outs:
+                for x in o.split('out=[')[-1].split(']')[0].split(','):
+                    if x.startswith('start:'):
+                        p = int(x.split(':')[1].split('>')[0]); stats['dist_starts'][dn[r['case'].adist[r['case'].pinfo[p]['app']]]] += 1
             if not samples and rule(outs):
                 samples.append({'case_seed': r['seed'], 'configuration': [l for l in r['lines'] if not l.startswith('op')],
                                 'operations': [f'{l}  ->  {o}' for l, o in zip(r['lines'], r['obs']) if l.startswith('op') and ' info ' not in l][:14]})
-            base = {'case_seed': r['seed'], 'how': f'./check {prop} --replay <this file> regenerates the case from case_seed'}
+            base = {'case_seed': r['seed'], 'gen': r['gen'], 'how': f'./check {prop} --replay <this file> regenerates the case from case_seed (and gen)'}
             if r['exc']:
                 cls = r['exc'][0]
                 stats['impl_exceptions'][cls] = stats['impl_exceptions'].get(cls, 0) + 1
@@ -393,11 +486,7 @@ def commander_check(chk, module, prefixes, quick_cases=1500, thorough_cases=3000
                            dict(base, verdict=v, operation_index=k, configuration=[l for l in r['lines'] if not l.startswith('op')],
                                 operations=[f'{l}  ->  {o}' for l, o in zip(r['lines'][:k + 1], r['obs'][:k + 1]) if l.startswith('op') and ' info ' not in l][-25:]))
 
-    corpus = []
-    d = os.path.join(os.path.dirname(os.path.dirname(os.path.abspath(__file__))), 'corpus', prop)
-    if os.path.isdir(d):
-        for f in sorted(os.listdir(d)):
-            if f.endswith('.json'): corpus.append(json.load(open(os.path.join(d, f)))['case_seed'])
+    corpus = corpus_cases(prop)
     if corpus: batch(corpus)
     seeds = derive_seeds(chk.seed, n)
     for k in range(0, len(seeds), 1000): batch(seeds[k:k + 1000])
@@ -407,9 +496,12 @@ def commander_check(chk, module, prefixes, quick_cases=1500, thorough_cases=3000
     chk.coverage.update({
         'evaluations': stats['evaluations'], 'distinct_nontrivial': len(stats['nontrivial']),
         'rule': 'generated application configurations (1-3 applications x 1-4 processes, sequences, required, wait_exit, loads, strategies, '
-                'identifiers rules, 1-4 instances on 1-4 nodes, programs unknown / disabled on some instances) driven by start / stop / '
-                'restart requests, ticks, periodic checks and process events (incl. events Supervisor would not produce); non-trivial = '
-                + rule_text + '; distinct = distinct case seed',
+                'distribution rules ALL_INSTANCES / SINGLE_INSTANCE / SINGLE_NODE, identifiers rules of programs and applications, 1-4 '
+                'instances on 1-4 nodes, programs unknown / disabled on some instances) driven by start / stop / restart requests of one '
+                'application, the start of a single process, the automatic start of all applications and the stop of all applications, ticks, periodic checks, process '
+                'events (incl. events Supervisor would not produce), instance loss / re-join / activation and disability events; '
+                f'generator generation {GEN} (corpus cases carry their own); non-trivial = ' + rule_text + '; distinct = distinct case seed',
+        'applications_by_distribution': stats['dist'], 'start_requests_by_distribution': stats['dist_starts'],
         'samples': samples, 'recorded_lines': stats['lines'], 'operation_kinds': stats['ops'], 'requests_emitted': stats['emitted'],
         'implementation_exceptions': stats['impl_exceptions'], 'cases_ended_by_a_dropped_job': stats['orphan_cases'],
         'traces_validated_against_impl': stats['evaluations'], 'exhaustive': False})
@@ -420,15 +512,23 @@ def commander_check(chk, module, prefixes, quick_cases=1500, thorough_cases=3000
                     'function instance -> node; the monitor attributes requests to application starts through the rank recorded by the harness']
     chk.assumptions += ['the ordering / eligibility clauses over whole executions are judged on the implementation by the Lean monitor (search) and '
                         'carried by the lock-step correspondence; the theorems are about the decision functions the commander runs',
+                        'a case ends when an implementation operation raises (the exception class is part of the lock-step observation; known '
+                        'finding exception:TypeError@update_identifier)',
+                        'not driven: Stopper.stop_process / restart_process, the deferred triggers (trigger=False) of the running failure '
+                        'handler, hash / at identifiers, the status formula of applications',
                         'a case ends when the implementation drops a job object that goes on sending requests (known finding C10:start-request-untracked)']
 
 
 def commander_replay(chk, path, prefixes):
     c = json.load(open(path)); r0 = c.get('replay', c)
-    for r in run_cases(chk, [r0['case_seed']]):
+    for r in run_cases(chk, [(r0['case_seed'], r0.get('gen', 0))]):
+        if r['exc']:
+            cls = r['exc'][0]
+            chk.reject(f"{chk.prop}:{'hang' if cls == 'Hang' else 'exception:' + tb_signature(r['exc'][1])}",
+                       f'the implementation raised {cls} while handling an operation', {'case_seed': r['seed'], 'gen': r['gen']})
         if r['diff']: chk.disagree('Cmd', r['diff'])
         for k, v, op in r['verdicts']:
             tag = v.split(':')[0]
             if any(tag.startswith(p) for p in prefixes):
-                chk.reject(f"{chk.prop}:{tag.split('-', 1)[1]}", f'{v} at operation {k} ({op})', {'case_seed': r['seed']})
+                chk.reject(f"{chk.prop}:{tag.split('-', 1)[1]}", f'{v} at operation {k} ({op})', {'case_seed': r['seed'], 'gen': r['gen']})
     chk.coverage.update({'evaluations': 1, 'distinct_nontrivial': 0, 'rule': 'replay of one case', 'samples': [r0['case_seed']]})
